@@ -462,14 +462,20 @@ def run(items, tier, seed, res, prop, judge_values=True, judges=(), backends=("n
         odims = op.other_dims(dim) if op.other_dims else (None,)
         for odim in odims:
             for (s_self, s_other, order) in signatures(op, dim, odim, tier, r):
-                draws = W.make_batch(op, dim, r, N, odim=odim, momentum=op.momentum_only or r.random() < 0.5)
-                cases = []
-                flip = r.random() < 0.3  # one decision per batch: every element of an array has the same flavor
-                for d in draws:
-                    try:
-                        cases.append(W.instantiate(d, s_self, s_other, order, flip_momentum=flip))
-                    except R.NotRepresentable:
-                        pass
+                for attempt in range(6):
+                    # a batch needs N operand sets that are all representable in this signature (the exactly-zero
+                    # velocity, for one, only is with z-longitudinal storage): redraw rather than lose the signature
+                    draws = W.make_batch(op, dim, r, N, odim=odim, momentum=op.momentum_only or r.random() < 0.5)
+                    cases = []
+                    flip = r.random() < 0.3  # one decision per batch: every element of an array has the same flavor
+                    for d in draws:
+                        try:
+                            cases.append(W.instantiate(d, s_self, s_other, order, flip_momentum=flip))
+                        except R.NotRepresentable:
+                            pass
+                    if len(cases) == N:
+                        break
+                    res.count("batch_redrawn_not_representable")
                 if len(cases) < N:
                     res.count("skip_batch_not_representable")
                     continue
